@@ -15,6 +15,7 @@ QUICK = [
     ("1,2,3", 0, 0), ("1,2,3", 1, 0), ("1,2,3", 2, 0), ("3,4,1", 0, 0), ("1,7,2", 0, 0), ("1,7,2", 1, 0),
     ("1,5,2", 0, 0), ("1,2,6,1", 0, 0), ("1,6,2,3", 2, 0), ("1,8,2,9,3", 0, 0), ("1,10,2,3", 0, 0),
     ("1,2,3", 0, 2), ("1,2,3,4", 0, 2), ("1,2,3", 1, 2),
+    ("1,2,6", 0, 3), ("1,10,2,6,1", 0, 3), ("1,2,6", 1, 3), ("1,2,6,1", 2, 3),   # pill while earlier messages are still being batched
     ("1,10,2,10,3", 1, 3), ("1,2,6,1", 1, 0), ("3,3,11,11", 0, 4), ("3,11,3", 0, 3), ("1,11,2", 1, 3),
 ]
 THOROUGH = QUICK + [
